@@ -220,8 +220,8 @@ func (s *Service) refreshProposerDutiesForEpoch(ctx context.Context, epoch phase
 	// First thing we do is cancel all scheduled beacon bock proposal jobs for the epoch.
 	// Wait for any scheduling of proposals that is in progress to finish, so that its jobs are cancelled as well,
 	// and keep any other scheduling out until the replacement jobs are in place.
-	s.proposerDutiesMutex.Lock()
-	defer s.proposerDutiesMutex.Unlock()
+	s.proposerDutiesMutexes[uint64(epoch)%dutiesMutexes].Lock()
+	defer s.proposerDutiesMutexes[uint64(epoch)%dutiesMutexes].Unlock()
 	for slot := s.chainTimeService.FirstSlotOfEpoch(epoch); slot < s.chainTimeService.FirstSlotOfEpoch(epoch+1); slot++ {
 		s.scheduler.CancelJobIfExists(ctx, fmt.Sprintf("Early beacon block proposal for slot %d", slot))
 		s.scheduler.CancelJobIfExists(ctx, fmt.Sprintf("Beacon block proposal for slot %d", slot))
@@ -258,8 +258,8 @@ func (s *Service) refreshAttesterDutiesForEpoch(ctx context.Context, epoch phase
 	// First thing we do is cancel all scheduled attestations jobs.
 	// Wait for any scheduling of attestations that is in progress to finish, so that its jobs are cancelled as well,
 	// and keep any other scheduling out until the replacement jobs are in place.
-	s.attesterDutiesMutex.Lock()
-	defer s.attesterDutiesMutex.Unlock()
+	s.attesterDutiesMutexes[uint64(epoch)%dutiesMutexes].Lock()
+	defer s.attesterDutiesMutexes[uint64(epoch)%dutiesMutexes].Unlock()
 	for slot := s.chainTimeService.FirstSlotOfEpoch(epoch); slot < s.chainTimeService.FirstSlotOfEpoch(epoch+1); slot++ {
 		if err := s.scheduler.CancelJob(ctx, fmt.Sprintf("Attestations for slot %d", slot)); err == nil {
 			cancelledJobs[slot] = true
